@@ -1452,7 +1452,7 @@ structure FlagsMatch (fl : Flags) (wid : Option Nat) (sd : Spec.Dir) : Prop wher
   pos : ∀ w, wid = some w → w > 0
 
 theorem fmtCore_spec (fl : Flags) (wid : Option Nat) (sd : Spec.Dir) (hm : FlagsMatch fl wid sd)
-    (sign ds : Bytes) (hsign : sign.length ≤ 1) : fmtCore fl wid sign ds = Spec.fmtNum sd sign ds := by
+    (sign ds : Bytes) : fmtCore fl wid sign ds = Spec.fmtNum sd sign ds := by
   unfold fmtCore Spec.fmtNum
   rw [hm.zero, hm.minus, hm.width]
   cases wid with
@@ -1487,12 +1487,14 @@ theorem fmtInteger_signed (fl : Flags) (wid : Option Nat) (sd : Spec.Dir) (hm : 
   rw [hm.plus, hm.space]
   by_cases hv : v < 0
   · have hneg : (true && decide (toU64 v ≥ two63)) = true := by simp [h1.2 hv]
-    simp only [hneg, if_true, hv, h2 hv]
-    exact fmtCore_spec fl wid sd hm _ _ (by simp)
+    simp only [hneg, if_true]
+    simp only [hv, h2 hv, if_true]
+    exact fmtCore_spec fl wid sd hm _ _
   · have hneg : (true && decide (toU64 v ≥ two63)) = false := by
       simp only [Bool.true_and, decide_eq_false_iff_not]; intro h; exact hv (h1.1 h)
-    simp only [hneg, Bool.false_eq_true, if_false, hv, h3 hv]
-    exact fmtCore_spec fl wid sd hm _ _ (by split <;> [simp; (split <;> simp)])
+    simp only [hneg, Bool.false_eq_true, if_false]
+    simp only [hv, h3 hv, if_false]
+    exact fmtCore_spec fl wid sd hm _ _
 
 /-- `%d`/`%o`/`%x` of a Go `uint` without `+`/space: C's `%u`/`%o`/`%x`. -/
 theorem fmtInteger_unsigned (fl : Flags) (wid : Option Nat) (sd : Spec.Dir) (hm : FlagsMatch fl wid sd)
@@ -1501,6 +1503,177 @@ theorem fmtInteger_unsigned (fl : Flags) (wid : Option Nat) (sd : Spec.Dir) (hm 
   rw [fmtInteger_core]
   unfold Spec.fmtUnsigned
   simp only [Bool.false_and, Bool.false_eq_true, if_false, hp, hs]
-  exact fmtCore_spec fl wid sd hm _ _ (by simp)
+  exact fmtCore_spec fl wid sd hm _ _
+
+/-! ## directives against the specification's formatting functions -/
+
+/-- The directive as the specification sees it. -/
+def MDir.spec (d : MDir) : Spec.Dir :=
+  { minus := d.flag = [45], plus := d.flag = [43], space := d.flag = [32], zero := d.zeros > 0,
+    width := decv d.width 0, verb := d.verb }
+
+theorem decv_ge : ∀ (ds : Bytes) (n : Nat), n ≤ decv ds n
+  | [], n => Nat.le_refl n
+  | c :: r, n => by
+    have := decv_ge r (n * 10 + (c.toNat - 48))
+    simp only [decv]; omega
+
+theorem MDir.flagsMatch (d : MDir) (h : d.WF) : FlagsMatch d.flags d.wid d.spec where
+  minus := rfl
+  plus := rfl
+  space := rfl
+  zero := rfl
+  width := by
+    unfold MDir.wid MDir.spec
+    cases hw : d.width with
+    | nil => simp [decv]
+    | cons c r => simp
+  pos := by
+    intro w hw
+    unfold MDir.wid at hw
+    cases hwd : d.width with
+    | nil => rw [hwd] at hw; simp at hw
+    | cons c r =>
+      rw [hwd] at hw
+      simp only [reduceCtorEq, if_false, Option.some.injEq] at hw
+      have hc : 48 ≤ c ∧ c ≤ 57 := (isDec_iff c).1 (h.width c (by rw [hwd]; exact List.mem_cons_self ..))
+      have hnz : c ≠ 48 := h.nz c r hwd
+      have h1 : c.toNat - 48 ≥ 1 := by
+        have h48 : (48 : Nat) ≤ c.toNat := hc.1
+        have : c.toNat ≠ 48 := fun hh => hnz (UInt8.toNat_inj.1 (by simpa using hh))
+        omega
+      have := decv_ge r (0 * 10 + (c.toNat - 48))
+      simp only [decv] at hw
+      omega
+
+theorem clamp_range (neg : Bool) (un : Nat) :
+    -9223372036854775808 ≤
+      (if neg = false ∧ un ≥ two63 then (Int.ofNat (two63 - 1), NumErr.range)
+       else if neg = true ∧ un > two63 then (- Int.ofNat two63, NumErr.range)
+       else (if neg then - Int.ofNat un else Int.ofNat un, NumErr.ok)).1 ∧
+    (if neg = false ∧ un ≥ two63 then (Int.ofNat (two63 - 1), NumErr.range)
+       else if neg = true ∧ un > two63 then (- Int.ofNat two63, NumErr.range)
+       else (if neg then - Int.ofNat un else Int.ofNat un, NumErr.ok)).1 ≤ 9223372036854775807 := by
+  unfold two63
+  cases neg
+  · by_cases h : un ≥ 9223372036854775808
+    · simp [h]
+    · simp [h]; omega
+  · by_cases h : un > 9223372036854775808
+    · simp [h]
+    · simp [h]; omega
+
+/-- `ParseInt(arg, 0, 0)` always yields an int64. -/
+theorem parseInt_range (a : Bytes) :
+    -9223372036854775808 ≤ (parseInt a).1 ∧ (parseInt a).1 ≤ 9223372036854775807 := by
+  unfold parseInt
+  by_cases ha : a = []
+  · simp [ha]
+  · rw [if_neg ha]
+    simp only
+    split
+    · simp
+    · exact clamp_range _ _
+
+/-- `%d` / `%i`: the model writes C's `%d` rendering (flags, zero padding, width) of the value Go
+    parsed from the argument. -/
+theorem dir_out_signed (f : Bytes → Res) (d : MDir) (h : d.WF) (hw : d.width.length ≤ 6)
+    (hv : d.verb = 100 ∨ d.verb = 105) (a : Bytes) :
+    d.out f a = Spec.fmtSigned d.spec (parseInt a).1 := by
+  have h99 : d.verb ≠ 99 := by rcases hv with h | h <;> rw [h] <;> decide
+  have h98 : d.verb ≠ 98 := by rcases hv with h | h <;> rw [h] <;> decide
+  have hgv : goVerb d.verb = 100 := by rcases hv with h | h <;> rw [h] <;> rfl
+  have hfa : fargOf d.verb a = .int (parseInt a).1 := by
+    rcases hv with h | h <;> rw [h] <;> rfl
+  unfold MDir.out
+  rw [if_neg h99, if_neg h98, hgv, hfa, goFprintf_closed d h hw 100 (Or.inl rfl)]
+  obtain ⟨hlo, hhi⟩ := parseInt_range a
+  simp only [printArg, true_or, if_true, Option.getD_some]
+  exact fmtInteger_signed _ _ _ (d.flagsMatch h) _ hlo hhi
+
+/-- `%u` / `%o` / `%x` without a `+` or space flag: C's rendering of the value Go parsed, taken
+    modulo 2^64. -/
+theorem dir_out_unsigned (f : Bytes → Res) (d : MDir) (h : d.WF) (hw : d.width.length ≤ 6)
+    (hv : d.verb = 117 ∨ d.verb = 111 ∨ d.verb = 120) (hfl : d.flag = [] ∨ d.flag = [45]) (a : Bytes) :
+    d.out f a = Spec.fmtUnsigned d.spec (if d.verb = 111 then 8 else if d.verb = 120 then 16 else 10)
+      (toU64 (parseInt a).1) := by
+  have h99 : d.verb ≠ 99 := by rcases hv with h | h | h <;> rw [h] <;> decide
+  have h98 : d.verb ≠ 98 := by rcases hv with h | h | h <;> rw [h] <;> decide
+  have hfa : fargOf d.verb a = .uint (toU64 (parseInt a).1) := by
+    rcases hv with h | h | h <;> rw [h] <;> rfl
+  have hp : d.flags.plus = false := by rcases hfl with h | h <;> simp [MDir.flags, h]
+  have hs : d.flags.space = false := by rcases hfl with h | h <;> simp [MDir.flags, h]
+  unfold MDir.out
+  rw [if_neg h99, if_neg h98, hfa]
+  rcases hv with hv | hv | hv
+  · rw [hv, show goVerb 117 = 100 from rfl, goFprintf_closed d h hw 100 (Or.inl rfl)]
+    simp only [printArg, true_or, if_true, Option.getD_some]
+    simpa using fmtInteger_unsigned _ _ _ (d.flagsMatch h) hp hs 10 _
+  · rw [hv, show goVerb 111 = 111 from rfl, goFprintf_closed d h hw 111 (Or.inr (Or.inl rfl))]
+    simp only [printArg]
+    simpa using fmtInteger_unsigned _ _ _ (d.flagsMatch h) hp hs 8 _
+  · rw [hv, show goVerb 120 = 120 from rfl, goFprintf_closed d h hw 120 (Or.inr (Or.inr (Or.inl rfl)))]
+    simp only [printArg]
+    simpa using fmtInteger_unsigned _ _ _ (d.flagsMatch h) hp hs 16 _
+
+theorem runeCountFuel_ascii : ∀ (fuel : Nat) (s : Bytes), (∀ b ∈ s, b < 128) → s.length ≤ fuel →
+    runeCountFuel fuel s = s.length
+  | 0, s, _, h => by
+    have : s = [] := List.eq_nil_of_length_eq_zero (by omega)
+    subst this; rfl
+  | fuel + 1, [], _, _ => rfl
+  | fuel + 1, b :: r, ha, h => by
+    have hb : b < 128 := ha b (List.mem_cons_self ..)
+    have hw : runeWidth (b :: r) = 1 := by simp [runeWidth, hb]
+    rw [runeCountFuel, hw]
+    · simp only [List.drop_succ_cons, List.drop_zero, List.length_cons]
+      rw [runeCountFuel_ascii fuel r (fun x hx => ha x (List.mem_cons_of_mem _ hx)) (by simp at h; omega)]
+      omega
+    · intro hh; cases hh
+
+theorem runeCount_ascii (s : Bytes) (h : ∀ b ∈ s, b < 128) : runeCount s = s.length :=
+  runeCountFuel_ascii s.length s h (Nat.le_refl _)
+
+/-- `%s` without the `0` flag: the argument padded with spaces to the width, on the left or (flag
+    `-`) on the right — provided the width is absent or the argument is ASCII (Go counts runes). -/
+theorem dir_out_string (f : Bytes → Res) (d : MDir) (h : d.WF) (hw : d.width.length ≤ 6)
+    (hv : d.verb = 115) (hz : d.zeros = 0) (a : Bytes) (ha : d.width = [] ∨ ∀ b ∈ a, b < 128) :
+    d.out f a = Spec.padTo d.spec.minus d.spec.width a := by
+  unfold MDir.out
+  rw [hv]
+  simp only [show ¬ ((115 : UInt8) = 99) by decide, show ¬ ((115 : UInt8) = 98) by decide, if_false]
+  have hgf := goFprintf_closed d h hw 115 (Or.inr (Or.inr (Or.inr rfl))) (fargOf 115 a)
+  rw [show goVerb 115 = 115 from rfl, hgf]
+  simp only [fargOf, if_true, printArg, true_or, Option.getD_some, fmtS]
+  have hm := d.flagsMatch h
+  rw [hm.minus, hm.width]
+  have hzero : d.flags.zero = false := by simp [MDir.flags, hz]
+  unfold pad Spec.padTo Spec.spaces
+  cases hwid : d.wid with
+  | none => simp
+  | some w =>
+    have hw0 : w ≠ 0 := by have := hm.pos w hwid; omega
+    have hne : d.width ≠ [] := by
+      intro hnil; simp [MDir.wid, hnil] at hwid
+    have hasc : ∀ b ∈ a, b < 128 := by
+      rcases ha with ha | ha
+      · exact absurd ha hne
+      · exact ha
+    simp only [Option.getD_some, hw0, if_false, hzero, Bool.false_eq_true, false_and, if_false,
+      runeCount_ascii a hasc]
+    cases hmn : d.flags.minus <;> simp
+
+/-- `%c`: the first byte of the argument, a NUL byte when it is empty or missing; flags and width
+    are ignored by the model. -/
+theorem dir_out_char (f : Bytes → Res) (d : MDir) (hv : d.verb = 99) (a : Bytes) :
+    d.out f a = [a.headD 0] := by
+  simp [MDir.out, hv]
+
+/-- `%b`: what the nested escape-only formatter writes; flags and width are ignored by the model. -/
+theorem dir_out_b (d : MDir) (hv : d.verb = 98) (a : Bytes) :
+    ∃ o, formatNil a = .ok o 0 ∧ d.out formatNil a = o := by
+  obtain ⟨o, ho⟩ := formatNil_ok a
+  refine ⟨o, ho, ?_⟩
+  simp [MDir.out, hv, ho]
 
 end ShVerif.C24
